@@ -15,6 +15,7 @@
 import Hdl21Model.ExportOrder
 import Hdl21Model.Lemmas.Resolve
 import Hdl21Model.Lemmas.Export
+import Hdl21Model.Lemmas.ExportWF
 namespace Hdl21.Props.C06
 open Hdl21 Hdl21.ExportOrder
 
@@ -143,6 +144,68 @@ theorem target_width (ws : List (String × Nat)) (fuel : Nat) (c r : SConn) (t :
         | cons p ps ih => simp [sigsOKList, ih]) fuel).2.2.1 c r hr hok
   rw [export_read ws r t bs hok' he ((resolve_sound fuel).2.2.1 c r bs hr hd)]
   simp [hl]
+
+/-! ## whole modules -/
+section Modules
+open Hdl21.Pkg Hdl21.RoundTrip Hdl21.ExportWF
+
+/-- **What the exporter writes for a well-formed elaborated module has none of the defects C06 lists**, in whatever package it
+    ends up: signal, port and instance names unique, every port a declared signal, no zero-width signal, every instance of a
+    defined target with each of its ports connected exactly once, to a target over declared signals, inside their widths, of the
+    port's width. -/
+theorem export_module_wf (ctx : PRef → Option (List (String × Nat))) (h : HModule) (hw : EWF ctx h = true) :
+    ∃ p, RoundTrip.exportModule h = .ok p ∧ p.signals = sigList h ∧ p.instances.map (·.name) = h.instances.map (·.name) ∧
+      ∀ (pkg : Package) (earlier : List PModule), (∀ r, targetPorts pkg earlier r = ctx r) → moduleProblems pkg earlier p = [] := by
+  unfold EWF at hw
+  simp only [Bool.and_eq_true, decide_eq_true_eq] at hw
+  obtain ⟨⟨⟨⟨hnames, hwid⟩, hdir⟩, hinames⟩, hinst⟩ := hw
+  obtain ⟨q, hq⟩ := exportPorts_ok h.ports hdir
+  obtain ⟨ps, e1, e2, e3⟩ := insts_export ctx (sigList h) h.instances hinst
+  refine ⟨⟨h.name, sigList h, q, ps⟩, by unfold RoundTrip.exportModule; rw [hq, e1]; rfl, rfl, e2, ?_⟩
+  intro pkg earlier hctx
+  unfold moduleProblems
+  have hsn : (sigList h).map (·.1) = (h.signals ++ h.ports).map (·.name) := by
+    unfold sigList; rw [List.map_map]; rfl
+  have hqn := exportPorts_names h.ports q hq
+  have h1 : dups ((sigList h).map (·.1)) = [] := by rw [hsn]; exact dups_nil_of_nodup _ hnames
+  have hpnd : (h.ports.map (·.name)).Nodup := by
+    rw [List.map_append] at hnames
+    exact (List.nodup_append.mp hnames).2.1
+  have h2 : dups (q.map (·.1)) = [] := by rw [hqn]; exact dups_nil_of_nodup _ hpnd
+  have h3 : (q.map (·.1)).filter (fun n => (lookup n (sigList h)).isNone) = [] := by
+    rw [List.filter_eq_nil_iff]
+    intro n hn
+    rw [hqn] at hn
+    have : n ∈ (sigList h).map (·.1) := by
+      rw [hsn, List.map_append]; exact List.mem_append_right _ hn
+    have := lookup_isSome_of_name_mem (sigList h) n this
+    cases hl : lookup n (sigList h) with
+    | none => simp [hl] at this
+    | some w => simp
+  have h4 : dups (ps.map (·.name)) = [] := by rw [e2]; exact dups_nil_of_nodup _ hinames
+  have h5 : (sigList h).filter (fun s => s.2 = 0) = [] := by
+    rw [List.filter_eq_nil_iff]
+    intro s hs
+    unfold sigList at hs
+    obtain ⟨x, hx, rfl⟩ := List.mem_map.mp hs
+    rw [List.all_eq_true] at hwid
+    have := hwid x hx
+    simp only [decide_eq_true_eq] at this
+    simp; omega
+  have h6 : ps.flatMap (instProblems pkg earlier ⟨h.name, sigList h, q, ps⟩) = [] := by
+    rw [List.flatMap_eq_nil_iff]
+    intro pi hpi
+    obtain ⟨ports, hc, hnd, hall, hcov⟩ := e3 pi hpi
+    exact inst_no_problems pkg earlier _ pi ports (by rw [hctx]; exact hc) hnd hall hcov
+  simp only [h1, h2, h3, h4, h5, h6, List.map_nil, List.append_nil]
+
+
+/-- non-vacuity: a module with a port, an internal bus and a resistor between a bit of the bus and the port -/
+def exH : HModule := ⟨"Top", [⟨"s", 2, none⟩], [⟨"a", 1, some "INPUT"⟩],
+  [⟨"r1", .ext "vlsir.primitives" "resistor", [("r", "5")], [("p", .slice (.sig "s" 2) (.int 1)), ("n", .sig "a" 1)]⟩]⟩
+def exCtxW : PRef → Option (List (String × Nat)) := fun r => if r = .ext "vlsir.primitives" "resistor" then some [("p", 1), ("n", 1)] else none
+example : EWF exCtxW exH = true := by decide
+end Modules
 
 /-! ### Non-vacuity: a diamond -/
 example : exportTops (fun m => if m = 3 then [1, 2] else if m = 1 ∨ m = 2 then [0] else []) 4 [3] = [0, 1, 2, 3] := by
